@@ -45,6 +45,8 @@ structure PCall where
       `call` (a sibling writer/reader function, name in `format`) -/
   kind : String
   format : String
+  /-- the space-separated items of a print/scan format (`strings.Fields`), e.g. `%d %g` -/
+  verbs : List String
   args : List String
 deriving DecidableEq, Repr
 
